@@ -35,6 +35,9 @@ var (
 		"--no-ext-diff",
 		"--no-textconv",
 		"--color=never",
+		// Pointers must show up as text even if the user's attributes or
+		// diff driver mark the files as binary ("-diff", "binary").
+		"--text",
 		"-G", "oid sha256:", // only diffs which include an lfs file SHA change
 		"-p",                             // include diff so we can read the SHA
 		"-U12",                           // Make sure diff context is always big enough to support 10 extension lines to get whole pointer
